@@ -1,12 +1,12 @@
 CONSTANTS
   K = 1
-  MaxNodes = 12
-  BaseSet <- ArtBases
+  MaxNodes = 14
+  BaseSet <- AllBases
   RunCfgSeq <- RunsEnv
-  Prods <- EnvProds
+  Prods <- SibProds
   KISet <- KIClassic
   EnvWhereSet <- EnvWheres
-  SibSeqSet <- SibCover
+  SibSeqSet <- SibAll
   Deviations = {}
   EmitMin = 1
   EmitFrom = 9
